@@ -16,7 +16,9 @@ LEVEL_TEXT = ("Theorems in coq/Props/C12.v about the executable model coq/Node/B
               "the annotated results, finishes, and builds exactly the accepted entries in order; the rollback equation "
               "run(pre ++ rejected ++ post) = run(pre ++ post); a bad kind is reported by that call and changes nothing. "
               "For the typed engines (bindnode, generated code; model coq/Node/Typed.v, types Msg3 and {String:Msg3}) the "
-              "repeated-key clause is proved for the repaired setting and refuted for the pinned one. A wider typed family "
+              "all-scripts theorem is proved too (C12_typed_all_scripts: structs, typed maps and lists nested to any depth, every "
+              "rejection kind at any position, every quirk setting with the protocol defects off; rollback; bad kind; misuse detected "
+              "by generated code) and refuted by one witness per known finding for the pinned setting. A wider typed family "
               "(bindnode over inferred Go types: {String:Any}, [Any] with nested containers built through Begin...Finish, "
               "{String:{String:Int}}, [[String]], structs with every scalar kind, nested struct/list/map, optional and nullable "
               "fields, typed maps of structs, random types of that family; gendemo where the type exists) is checked against the "
@@ -25,8 +27,8 @@ LEVEL_TEXT = ("Theorems in coq/Props/C12.v about the executable model coq/Node/B
               "UintNode <= and > MaxInt64) => an error from that call, never a panic, assembler still usable. Tied to /repo by running "
               "the same annotated scripts, and all call sequences over a 9-call alphabet up to depth 6 (8 thorough), against the "
               "real assemblers under recover.")
-LEVEL_NOTE = ("Partial: the all-scripts theorem is proved for basicnode only; the typed engines are covered by single-call lemmas, "
-              "refutation witnesses and the correspondence run. Calls to stale handles / methods the handle's Go type lacks are "
+LEVEL_NOTE = ("Partial: the typed model covers Msg3 structs and typed maps/lists of them (no optional/nullable fields, unions, "
+              "representation level: SPEC-only run); the generated list assembler is modelled after the template, not run. Calls to stale handles / methods the handle's Go type lacks are "
               "outside the model (ONoMethod) and are not generated. Known findings: see known_findings.d/C12.json.")
 TRUSTED = ["the model of the typed engines (coq/Node/Typed.v) is faithful only on the grammar-with-injections family the harness generates; tied by correspondence",
            "Go map semantics for plainMap.m: association list read by first match",
